@@ -20,7 +20,9 @@ DESIGN_REF = "DESIGN.md section 6 C03"
 CLASSES = ["array", "linked_list", "dlinked_list"]
 INIT = {"a": [], "b": {"live": False, "s": []}, "it": -1, "held": 0}
 SCOPE = {"quick": (3, 2), "thorough": (5, 3)}      # NK, NV of the cfg files
-BIG = (200, 7)                                      # NK, NV of direction B
+BIG = (253, 7)                                      # NK, NV of direction B: keys 0..254 get first/last bytes 1..255
+SWEEP_SIZES = {"quick": [8, 16, 32, 64, 128, 256, 512, 1024], "thorough": [8, 16, 32, 64, 128, 256, 512, 1024, 2048, 4096, 8192]}
+SWEEP_CFG = {"quick": ("MapDictSweep.cfg", 2400), "thorough": ("MapDictSweepBig.cfg", 16800)}   # cfg, NK
 
 
 def argclass(e):
@@ -33,7 +35,8 @@ def argclass(e):
     parts = ["size=0" if n == 0 else ("size=1" if n == 1 else "size>1")]
     if e["pre"]["b"]["live"] and not onb:
         parts.append("copy-live")
-    if op in ("set", "set_pair", "set_keep", "remove", "get", "has_key", "b_set", "b_remove", "b_get"):
+    if op in ("set", "set_pair", "set_keep", "remove", "get", "has_key", "b_set", "b_remove", "b_get", "set_from", "set_own_pair",
+              "set_own_key", "remove_own_key"):
         k = e["args"][0]
         if k in keys:
             pos = "only" if n == 1 else ("smallest" if k == keys[0] else ("largest" if k == keys[-1] else "inner"))
@@ -46,6 +49,8 @@ def argclass(e):
         else:
             pos = "absent-between"
         parts.append("key:" + pos)
+        if op == "set_from":
+            parts.append("value-of-same-key" if e["args"][1] == k else "value-of-other-key")
     if op in ("get_keys", "get_values", "get_pairs"):
         np_, dc, reps = e["args"]
         parts.append("dest=NULL" if np_ < 0 else "dest=%s,prior=%d" % (["", "array", "linked_list", "dlinked_list"][dc], np_))
@@ -117,6 +122,15 @@ def gen_history(rnd, nops, nk, nv):
                 else:
                     held = 1
             have.add(k)
+        elif r < 0.36 and have and bhave is None:
+            # aliased arguments: objects the map itself owns
+            j = rnd.choice([min(have), max(have), rnd.choice(sorted(have))])
+            c = rnd.choice(["set_from %d %d" % (j, j), "set_from %d %d" % (k, j), "set_own_pair %d" % j, "set_own_key %d %d" % (j, v),
+                            "remove_own_key %d" % j])
+            if c.startswith("set_from"):
+                have.add(int(c.split()[1]))
+            elif c.startswith("remove_own_key"):
+                have.discard(j)
         elif r < 0.55:
             c = "remove %d" % pk
             have.discard(pk)
@@ -156,25 +170,108 @@ def gen_history(rnd, nops, nk, nv):
     return lines
 
 
-def trace_validation(ctx, exe, corrupt=None):
-    """Direction (B): long random histories on maps of up to 200 keys recorded on each class, validated by TLC."""
+def gen_sweep(sizes, nk, nv):
+    """Size-sweep family (direction B, deterministic): ONE execution that grows a map through the sizes n-1, n, n+1 for every
+    n in `sizes` and at each of these sizes runs every operation of the model at the position classes smallest / second /
+    middle / next-to-largest / largest / absent (below, between, above).  `have` mirrors the key set only to pick
+    arguments; TLC evaluating MapDictTrace on the recorded events is the oracle."""
+    lines = []
+    have = set()
+    base = 200
+    state = {"nextfill": base, "front": base - 1, "v": 0}
+
+    def val():
+        state["v"] = state["v"] % nv + 1
+        return state["v"]
+
+    def battery():
+        ks = sorted(have)
+        n = len(ks)
+        pos = [ks[0], ks[min(1, n - 1)], ks[n // 2], ks[max(0, n - 2)], ks[-1]]
+        gap = next((k + 1 for k in ks if k + 1 not in have and k + 1 < ks[-1]), None)
+        absent = [0, nk + 1, ks[0] - 1, ks[-1] + 1] + ([gap] if gap else [])
+        out = []
+        for k in pos + absent:
+            out += ["get %d" % k, "has_key %d" % k]
+        out += ["count", "has_value %d" % (nv + 1), "has_value 1", "get_keys -1 0 1", "get_pairs 2 %d 1" % (1 + n % 3),
+                "get_values 3 %d 2" % (1 + (n + 1) % 3)]
+        # every mutator at the position classes; the key set is restored each time
+        for k in (pos[0], pos[2], pos[4]):
+            out += ["set %d %d" % (k, val()), "set_pair %d %d" % (k, val()), "set_from %d %d" % (k, k), "set_own_pair %d" % k,
+                    "set_own_key %d %d" % (k, val()), "remove %d" % k, "get %d" % k, "set %d %d" % (k, val()),
+                    "remove_own_key %d" % k, "set_pair %d %d" % (k, val())]
+        out += ["set_from %d %d" % (pos[4], pos[0]), "set_from %d %d" % (pos[0], pos[4])]
+        for k in absent:
+            out += ["remove %d" % k]
+        out += ["set_keep %d %d" % (pos[4], val()), "get %d" % pos[4], "caller_mutates", "get %d" % pos[4], "caller_deletes"]
+        out += ["iter_new", "iter_next", "iter_has_next", "iter_next", "get %d" % pos[4], "iter_del"]
+        out += ["dup", "b_get %d" % pos[4], "b_remove %d" % pos[4], "b_get %d" % pos[4], "get %d" % pos[4], "b_set %d %d" % (pos[4], val()),
+                "b_remove %d" % pos[0], "b_set %d %d" % (pos[0], val())]
+        out += ["adopt"] if n % 2 else ["b_del"]
+        return out
+
+    for n in sizes:
+        need = (n - 2) - len(have)
+        if need > 0:
+            lo = state["nextfill"]
+            hi = lo + 2 * (need - 1)
+            lines.append("fill_set %d %d 2 %d" % (lo, hi, val()))
+            have |= set(range(lo, hi + 1, 2))
+            state["nextfill"] = hi + 2
+        for where in ("front", "middle", "back"):
+            ks = sorted(have)
+            if where == "front" or not ks:
+                k = state["front"]
+                state["front"] -= 1
+            elif where == "middle":
+                k = next(x + 1 for x in ks[len(ks) // 2:] if x + 1 not in have)
+            else:
+                k = state["nextfill"]
+                state["nextfill"] += 2
+            lines.append("set %d %d" % (k, val()))
+            have.add(k)
+            lines += battery()
+    assert max(have) + 2 <= nk and state["front"] > 1
+    return lines
+
+
+def trace_validation(ctx, exe, corrupt=None, sweep=True):
+    """Direction (B): long random histories on maps of up to 253 keys (three text families of the key/value objects:
+    digits, first byte sweeping 1..255, last byte sweeping 1..255 - chosen per history) and the size sweep, recorded on
+    each class and validated by TLC."""
     import random, time
     from vlib import x_c03
     rnd = random.Random(ctx.seed)
     nk, nv = BIG
-    nexec, nops = (6, 500) if ctx.tier == "quick" else (40, 900)
+    nexec, nops = (6, 500) if ctx.tier == "quick" else (42, 900)
     hist = [gen_history(rnd, nops, nk, nv) for k in range(nexec)]
+    scfg, snk = SWEEP_CFG[ctx.tier]
+    sweep_hist = [gen_sweep(SWEEP_SIZES[ctx.tier], snk, nv)]
     total = 0
     maxsize = 0
     t0 = time.time()
     for cls in CLASSES:
-        n, mx, ok = x_c03.record_validate(ctx, exe, cls, [cls, str(nk), str(nv)], hist, INIT, "MapDictTrace.tla", "MapDictTrace.cfg", corrupt=corrupt)
+        n, mx, ok = x_c03.record_validate(ctx, exe, cls, [cls, str(nk), str(nv), "-1", "full"], hist, INIT, "MapDictTrace.tla",
+                                          "MapDictTrace.cfg", corrupt=corrupt)
         total += n
         maxsize = max(maxsize, mx)
-    ctx.add("trace_events_validated", total)
-    ctx.add("traces_validated_against_impl", nexec * len(CLASSES))
     ctx.cov["trace_max_map_size"] = maxsize
     ctx.cov["trace_wall_s"] = round(time.time() - t0, 1)
+    if sweep:
+        t1 = time.time()
+        smax = 0
+        for ci, cls in enumerate(CLASSES):
+            # the sweep runs with first-byte family 1 (keys straddle 0x80) for two classes and digits for one, rotating with the seed
+            enc = "1" if (ci + ctx.seed) % 3 else "0"
+            n, mx, ok = x_c03.record_validate(ctx, exe, cls, [cls, str(snk), str(nv), enc, "compact"], sweep_hist, INIT,
+                                              "MapDictTrace.tla", scfg, tag="sweep-" + cls)
+            total += n
+            smax = max(smax, mx)
+        ctx.cov["sweep_sizes"] = [m for n_ in SWEEP_SIZES[ctx.tier] for m in (n_ - 1, n_, n_ + 1)]
+        ctx.cov["sweep_max_map_size"] = smax
+        ctx.cov["sweep_wall_s"] = round(time.time() - t1, 1)
+    ctx.add("trace_events_validated", total)
+    ctx.add("traces_validated_against_impl", (nexec + (1 if sweep else 0)) * len(CLASSES))
 
 
 def run(ctx):
@@ -184,15 +281,20 @@ def run(ctx):
     g, res = objcheck.tlc_graph(ctx, "MC_MapDict.tla", cfg, workers=4)
     walks = (300, 40) if ctx.tier == "quick" else (4000, 60)
     for cls in CLASSES:
-        objcheck.replay_cover(ctx, g, [tok(INIT)], exe, cls, [cls, str(nk), str(nv)], keyfn, walks=walks, jobs=4,
+        # text family 0 (digits) and 1 (first bytes 0x40 / 0x80 / 0xbf ... : ASCII and high-bit keys mixed)
+        objcheck.replay_cover(ctx, g, [tok(INIT)], exe, cls, [cls, str(nk), str(nv), "0", "full"], keyfn, walks=walks, jobs=4,
                               pairs=(40000 if ctx.tier == "quick" else 400000))
+        objcheck.replay_cover(ctx, g, [tok(INIT)], exe, cls + "/highbit-keys", [cls, str(nk), str(nv), "1", "full"], keyfn,
+                              walks=walks, jobs=4)
     trace_validation(ctx, exe)
     ctx.cov["exhaustive"] = True
-    ctx.cov["rule"] = ("every transition TLC generates for MapDict in the bounded scope is executed once per class as the last step of a "
-                       "script whose prefix consists of already verified transitions; state (full read-back), return value, "
-                       "representation invariants and heap balance are compared after every step; plus random walks over verified "
-                       "transitions and TLC-validated recorded histories on 200-key maps")
-    ctx.assumptions += ["keys and values are spif_str objects; key order is spif_str_comp on fixed-width decimal texts",
+    ctx.cov["rule"] = ("every transition TLC generates for MapDict in the bounded scope is executed once per class and per key text family "
+                       "(digits / mixed ASCII and high-bit first bytes) as the last step of a script whose prefix consists of already "
+                       "verified transitions; state (full read-back), return value, representation invariants and heap balance are "
+                       "compared after every step; plus random walks over verified transitions, TLC-validated recorded histories on "
+                       "253-key maps whose keys use every byte value 1..255 as first / as last byte, and a TLC-validated size sweep "
+                       "(every operation at sizes n-1, n, n+1 for n = 8 .. 1024 (thorough .. 8192) at the position classes)")
+    ctx.assumptions += ["keys and values are spif_str objects; key order is spif_str_comp (strcmp, unsigned bytes) on texts that order like the numbers",
                         "ASan build of the current tree (clang -O1)"]
 
 
